@@ -160,6 +160,12 @@ Theorem linearizable_cache : forall s t0 ls cf,
 Proof. exact (linearizable cache_step). Qed.
 Print Assumptions linearizable_cache.
 
+(* the witness order (order in which the bodies ran) is the lock-acquisition order *)
+Theorem witness_is_lock_acquisition_order : forall s t0 ls cf,
+  exec lru_step (init_conf s t0) ls cf -> acq_tids ls = body_tids ls ++ holding cf.
+Proof. exact (witness_in_acquisition_order lru_step). Qed.
+Print Assumptions witness_is_lock_acquisition_order.
+
 (* each call of a thread is Inv, Acq, Body, Rel, Res in this order for the same method, and the
    calls of one thread do not overlap: the body - the call's place in the sequential witness -
    lies between invocation and response, so the witness respects real-time precedence *)
